@@ -204,6 +204,8 @@ def main():
     y0, y1 = (int(sys.argv[4]), int(sys.argv[5])) if len(sys.argv) > 5 else (2000, 2050)
     t0 = int((datetime.datetime(y0, 1, 1) - E2000).total_seconds())
     t1 = int((datetime.datetime(y1, 1, 1) - E2000).total_seconds())
+    if data.get('range'):
+        t0, t1 = data['range']       # explicit instants (seconds from 2000-01-01) instead of whole years
     combos = [(vm, ip, oc) for vm in (13, 14) for ip in (True, False) for oc in (True, False)]
     names = sorted(data.get('only') or infos.keys())
     res = {'names': names}
